@@ -1,6 +1,8 @@
 package main
 
 import (
+	"sort"
+	"sync"
 	"bytes"
 	"encoding/json"
 	"fmt"
@@ -334,6 +336,19 @@ func (c *ctx) genStream(dir string, maxBytes int) []M {
 	return items
 }
 
+// spoilOne: ONE command of the sequence - first, last or in between - gets members over their full Go domains (most such
+// values have no encoding): the sequence must then be refused as a whole, not sent without that command.  Only the
+// `streams` mode of this family uses it; other families need encodable sequences.
+func (c *ctx) spoilOne(dir string, items []M) []M {
+	if len(items) > 0 && c.rnd.Intn(6) == 0 {
+		i := c.pick(0, len(items)-1, c.rnd.Intn(len(items)))
+		if pl, ok := items[i]["p"].([]interface{}); ok && len(pl) == 1 {
+			items[i]["p"] = []interface{}{c.genCmdVal(key(dir, items[i]["cid"].(int)), false)}
+		}
+	}
+	return items
+}
+
 // cmdTypeEvents: which Go payload type a decoded MAC command carries (the API's documented naming: <CommandName>Payload),
 // through the MACCommand decoder and through the FOpts of a data frame.
 func cmdTypeEvents(c *ctx) {
@@ -497,9 +512,79 @@ func drvMacCmd(c *ctx) error {
 		for i := 0; i < c.n; i++ {
 			dir := []string{"down", "up"}[c.rnd.Intn(2)]
 			if c.rnd.Intn(2) == 0 {
-				c.emit(streamEvent(dir, "fopts", c.genStream(dir, 15)))
+				c.emit(streamEvent(dir, "fopts", c.spoilOne(dir, c.genStream(dir, 15))))
 			} else {
-				c.emit(streamEvent(dir, "frm", c.genStream(dir, 242)))
+				c.emit(streamEvent(dir, "frm", c.spoilOne(dir, c.genStream(dir, 242))))
+			}
+		}
+	case "shared": // several goroutines decode the SAME source bytes (read-only sharing of a receive buffer is legitimate)
+		for round := 0; round < c.n; round++ {
+			for _, k := range cmdKeys {
+				size := cmdTab[k].size
+				if size == 0 {
+					continue
+				}
+				dir, cid := splitKey(k)
+				src := c.bytesN(size)
+				for i := range src { // no zero bytes: a decoder that borrows a byte of the input shows
+					src[i] |= 0x11
+				}
+				keep := append([]byte{}, src...)
+				withCID := append([]byte{byte(cid)}, src...)
+				keepCID := append([]byte{}, withCID...)
+				seen := map[string]M{}
+				var mu sync.Mutex
+				var wg sync.WaitGroup
+				for g := 0; g < 6; g++ {
+					wg.Add(1)
+					go func(g int) {
+						defer wg.Done()
+						var prev lorawan.MACCommandPayload
+						prevRes := "?"
+						for it := 0; it < 20000; it++ {
+							var p lorawan.MACCommandPayload
+							res, _ := observeFast(func() error {
+								if g%2 == 0 {
+									var err error
+									if p, _, err = lorawan.GetMACPayloadAndSize(dir == "up", lorawan.CID(cid)); err != nil {
+										return err
+									}
+									return p.UnmarshalBinary(src)
+								}
+								var mc lorawan.MACCommand
+								if err := mc.UnmarshalBinary(dir == "up", withCID); err != nil {
+									return err
+								}
+								p = mc.Payload
+								return nil
+							})
+							if res == prevRes && reflect.DeepEqual(p, prev) { // tight loop: only a result that differs from the previous one is recorded
+								continue
+							}
+							prev, prevRes = p, res
+							ev := M{"ev": "dec", "dir": dir, "cid": cid, "bytes": bs(keep), "err": res, "intact": true, "shared": true}
+							if res == "" && p != nil {
+								ev["val"] = payloadToVal(k, p)
+							}
+							b, _ := json.Marshal(ev)
+							mu.Lock()
+							seen[string(b)] = ev
+							mu.Unlock()
+						}
+					}(g)
+				}
+				wg.Wait()
+				intact := string(src) == string(keep) && string(withCID) == string(keepCID)
+				var ks []string
+				for s := range seen {
+					ks = append(ks, s)
+				}
+				sort.Strings(ks)
+				for _, s := range ks {
+					ev := seen[s]
+					ev["intact"] = intact
+					c.emit(ev)
+				}
 			}
 		}
 	case "lookup": // registry of the 2 x 256 (direction, CID) pairs
